@@ -1,9 +1,11 @@
 #!/bin/bash
-# usage: tools/try_seed.sh <seed-dir-name> <tier> <check-id>...   -- apply seeded patch to /repo, run checks, always revert
+# usage: tools/try_seed.sh <seed-dir-name> <tier> <check-id>...   -- apply seeded patch to /repo, run checks, always undo it
+# Refuses to run on a dirty /repo: undoing uses `git apply -R` of exactly the seeded patch, never a blanket checkout.
 d=/verif/seeded/$1; tier=$2; shift 2
+if [ -n "$(git -C /repo status --porcelain --untracked-files=no)" ]; then echo "/repo has uncommitted changes: commit or stash them first"; exit 3; fi
 git -C /repo apply --check $d/patch.diff || { echo "patch does not apply"; exit 3; }
 git -C /repo apply $d/patch.diff
-trap 'git -C /repo checkout -- rust && echo "[reverted]"' EXIT
+trap 'git -C /repo apply -R $d/patch.diff && echo "[reverted]"' EXIT
 for c in "$@"; do
   echo "== $c on seed $(basename $d)"
   /verif/bin/check $c --tier $tier 2>&1 | grep -E "VIOLATION|KNOWN|\[ok\]|TOOL-ERROR|violation\]" | head -8
